@@ -4,7 +4,7 @@ SPEC = {
     "gen": [],
     "streams": [
         {"name": "failtx", "cmd": "failtx",
-         "args": {"quick": ["-cases", "150", "-per", "50"], "thorough": ["-cases", "5000", "-per", "100"]},
+         "args": {"quick": ["-cases", "200", "-per", "50"], "thorough": ["-cases", "5000", "-per", "100"]},
          "search_args": ["-cases", "3000", "-per", "100"]},
     ],
     "trusted_base": [
